@@ -112,12 +112,15 @@ func (f *Fragment) Size() uint64 {
 func (f *Fragment) GetFullSamples(trex *TrexBox) ([]FullSample, error) {
 	moof := f.Moof
 	mdat := f.Mdat
+	if moof == nil || mdat == nil {
+		return nil, fmt.Errorf("fragment lacks moof or mdat box")
+	}
 	//seqNr := moof.Mfhd.SequenceNumber
 	var traf *TrafBox
 	foundTrak := false
 	if trex != nil {
 		for _, traf = range moof.Trafs {
-			if traf.Tfhd.TrackID == trex.TrackID {
+			if traf.Tfhd != nil && traf.Tfhd.TrackID == trex.TrackID {
 				foundTrak = true
 				break
 			}
@@ -127,6 +130,9 @@ func (f *Fragment) GetFullSamples(trex *TrexBox) ([]FullSample, error) {
 		}
 	} else {
 		traf = moof.Traf // The first one
+	}
+	if traf == nil || traf.Tfhd == nil {
+		return nil, fmt.Errorf("no traf box with tfhd box in moof")
 	}
 	tfhd := traf.Tfhd
 	var baseTime uint64
@@ -156,6 +162,13 @@ func (f *Fragment) GetFullSamples(trex *TrexBox) ([]FullSample, error) {
 			}
 		} else {
 			offsetInMdat = 0
+		}
+		var trunDataSize uint64
+		for _, s := range trun.Samples {
+			trunDataSize += uint64(s.Size)
+		}
+		if trunDataSize > mdatDataLength-offsetInMdat {
+			return nil, fmt.Errorf("sample data of trun beyond mdat")
 		}
 		samples = append(samples, trun.GetFullSamples(uint32(offsetInMdat), baseTime, mdat)...)
 		baseTime += totalDur // Next trun start after this
